@@ -7,6 +7,8 @@ CONSTANTS
   StaleTimeout = TRUE
   StaleLists = FALSE
   ThresholdBefore = TRUE
+  ProbeCheckUpdated = TRUE
+  QuotaErrors = TRUE
   InitStates = {"Queued"}
   B <- BLive2
   MaxHist = 0
